@@ -188,45 +188,54 @@ Proof.
 Qed.
 
 (* ------------------------------------------------------------------ the Ethereum path *)
-Lemma eth_prepare_digest : forall v t a acc x doc d,
+Definition single_ok (v : variant) (t : tx) : bool := (v_eip_single v && v_raw_single v) || single_msg t.
+
+Lemma eth_prepare_digest : forall v t a acc x doc d, single_ok v t = true ->
   eth_prepare v t a acc x doc = EDigest d -> eth_digest_of t x acc doc = Some d.
 Proof.
-  intros v t a acc x doc d H. unfold Auth.eth_prepare in H. unfold eth_digest_of.
+  intros v t a acc x doc d SM H. unfold Auth.eth_prepare in H. unfold eth_digest_of.
+  unfold single_ok, single_msg in SM.
   destruct (s_mode x); try (inversion H; reflexivity).
   destruct (t_msgs t) as [|m r]; [discriminate|].
-  destruct m as [id l|id snd raw]; destruct r; try discriminate.
-  - inversion H; reflexivity.
-  - destruct (negb (r_ok raw)); [discriminate|]. destruct (negb (a_seq acc =? r_nonce raw)); [discriminate|].
-    destruct (negb (r_chain raw =? eth_chain_id)); [discriminate|].
+  destruct m as [id l|id snd raw].
+  - destruct r as [|m' r'].
+    + rewrite andb_false_r in H. inversion H; reflexivity.
+    + rewrite orb_false_r in SM. apply andb_true_iff in SM as [E1 _]. rewrite E1 in H. discriminate.
+  - repeat match type of H with (if ?c then _ else _) = _ => destruct c end; try discriminate.
     destruct (eth_sender (r_id raw)) as [z|]; [|discriminate].
     destruct (v_check_sender v && negb (z =? a)); discriminate.
 Qed.
-Lemma eth_prepare_done : forall v t a acc x doc,
+Lemma eth_prepare_done : forall v t a acc x doc, single_ok v t = true ->
   eth_prepare v t a acc x doc = EDone (Ok tt) ->
   exists id snd raw sender, t_msgs t = [MEth id snd raw] /\ s_mode x = MDirect /\ r_ok raw = true /\
     r_nonce raw = a_seq acc /\ r_chain raw = eth_chain_id /\ eth_sender (r_id raw) = Some sender /\
     (v_check_sender v = true -> sender = a).
 Proof.
-  intros v t a acc x doc H. unfold Auth.eth_prepare in H.
+  intros v t a acc x doc SM H. unfold Auth.eth_prepare in H. unfold single_ok, single_msg in SM.
   destruct (s_mode x) eqn:M; try discriminate.
   destruct (t_msgs t) as [|m r]; [discriminate|].
-  destruct m as [id l|id snd raw]; destruct r; try discriminate.
-  destruct (r_ok raw) eqn:Rk; simpl in H; [|discriminate].
-  destruct (a_seq acc =? r_nonce raw) eqn:N; simpl in H; [|discriminate].
-  destruct (r_chain raw =? eth_chain_id) eqn:C; simpl in H; [|discriminate].
-  destruct (eth_sender (r_id raw)) as [sender|] eqn:S; [|discriminate].
-  destruct (v_check_sender v && negb (sender =? a)) eqn:K; [discriminate|].
-  exists id, snd, raw, sender. repeat split; auto; try lia.
+  destruct m as [id l|id snd raw].
+  - destruct (v_eip_single v && negb (is_nil r)); discriminate.
+  - assert (R : r = []).
+    { destruct r as [|m' r']; auto. rewrite orb_false_r in SM. apply andb_true_iff in SM as [_ E2].
+      rewrite E2 in H. discriminate. }
+    subst r. rewrite andb_false_r in H.
+    destruct (r_ok raw) eqn:Rk; simpl in H; [|discriminate].
+    destruct (a_seq acc =? r_nonce raw) eqn:N; simpl in H; [|discriminate].
+    destruct (r_chain raw =? eth_chain_id) eqn:C; simpl in H; [|discriminate].
+    destruct (eth_sender (r_id raw)) as [sender|] eqn:S; [|discriminate].
+    destruct (v_check_sender v && negb (sender =? a)) eqn:K; [discriminate|].
+    exists id, snd, raw, sender. repeat split; auto; try lia.
 Qed.
 
-Lemma eth_verify_ok : forall v c t a acc x,
+Lemma eth_verify_ok : forall v c t a acc x, single_ok v t = true ->
   eth_verify v t a acc x (doc_of c t x acc) = Ok tt ->
   (exists d a0, eth_digest_of t x acc (doc_of c t x acc) = Some d /\ recover d (s_sig x) = Some a0 /\ signers t = [a0]) \/
   (exists id snd raw sender, t_msgs t = [MEth id snd raw] /\ s_mode x = MDirect /\ r_ok raw = true /\
      r_nonce raw = a_seq acc /\ r_chain raw = eth_chain_id /\ eth_sender (r_id raw) = Some sender /\
      (v_check_sender v = true -> sender = a)).
 Proof.
-  intros v c t a acc x H. unfold Auth.eth_verify in H.
+  intros v c t a acc x SM H. unfold Auth.eth_verify in H.
   destruct (is_multi (s_mode x)); [discriminate|].
   apply bind_ok in H as [[] [_ H]].
   destruct (eth_prepare v t a acc x (doc_of c t x acc)) as [r|d] eqn:P.
@@ -263,7 +272,8 @@ Proof.
       * apply (IH sg (pre ++ [a])); auto. rewrite <- app_assoc. exact SG.
     + apply Z.eqb_neq in A.
       destruct (eth_verify v t a acc x (doc_of c t x acc)) as [[]|e|p] eqn:EV; try discriminate.
-      apply eth_verify_ok in EV as [(d & a0 & D & R & S)|(id & snd & raw & sender & M & Md & Rk & N & Ch & Se & Imp)].
+      assert (SM : single_ok v t = true) by (unfold sound_for in SF; apply andb_true_iff in SF as [_ SF2]; exact SF2).
+      apply eth_verify_ok in EV as [(d & a0 & D & R & S)|(id & snd & raw & sender & M & Md & Rk & N & Ch & Se & Imp)]; [| |exact SM].
       * (* the one-signer rule: a is the only signer, nothing is skipped *)
         rewrite S in SG. destruct pre as [|p0 pre]; simpl in SG.
         -- injection SG as -> Hsg. subst sg. destruct sl; [|discriminate].
@@ -271,7 +281,7 @@ Proof.
            exists acc, k. repeat split; auto. right. split; auto. left. split; auto. exists d. split; auto.
         -- injection SG as _ Hp. destruct pre; discriminate.
       * (* the raw Ethereum branch: only sound for the repaired code *)
-        unfold sound_for, no_eth_raw_msg in SF. rewrite M in SF. simpl in SF.
+        unfold sound_for, no_eth_raw_msg in SF. apply andb_true_iff in SF as [SF _]. rewrite M in SF. simpl in SF.
         rewrite orb_false_r in SF. apply andb_true_iff in SF as [CS CT].
         rewrite CT in H. specialize (Imp CS). subst sender.
         constructor.
